@@ -6,6 +6,7 @@ CONSTANTS
   Outcomes = {"ok", "app", "panic"}
   EarlyEnd = FALSE
   WithDrop = FALSE
+  WithFree = FALSE
 INVARIANTS HandlerAfterCall OutcomeIsHandlers StreamPrefix EndAfterAll CanFinish RpcInvariants
 PROPERTIES RefinesRpc
 CONSTRAINT Emit
